@@ -4,6 +4,9 @@ import Marwood.Lemmas.TransformAccept
 import Marwood.Lemmas.TransformEllClasses
 import Marwood.Lemmas.TransformTermTheorem
 import Marwood.Lemmas.TransformEllAcceptTmpl
+import Marwood.Lemmas.TransformDriverSound
+import Marwood.Lemmas.TransformDriverTerm
+import Marwood.Gen.Prelude
 /-!
 # C17 — syntax-rules is sound where supported and always terminates
 
@@ -684,5 +687,356 @@ example : ∃ t, Transform.tryNew (defFuel gapDef) gapDef = .ok t ∧
     t.transform 100 (Datum.ofList [.sym ['m'], n1, n2, n3]) = .ok (Datum.ofList [n1, n2, n3]) ∧
     GapFree (ctxOf t) (specRules t) gapUse = false :=
   ⟨_, rfl, by decide +kernel, by decide +kernel, by decide +kernel, by decide +kernel⟩
+
+/-! # T17.3 — the expansion driver (`Vm::transform`, compile.rs:78–165)
+
+Model: `Marwood.Transform.Driver` (`expandForm M fuel d`; the macro table `M` stands for the global
+slots holding a macro; fuel = nested expansions still allowed). Specification: `Spec.ExpandAll`
+(`specExpandAll`: outermost first, operands as written, left to right, quoted data and binding
+positions untouched, local bindings shadow keywords).
+
+* T17.3a `driver_sound_partial`: for every table of transformers `try_new` accepted and every form that
+  passes the decidable guard `Spec.ExpandAll.expandGuard` (every use visited is outside the known gap and
+  outside the excluded uses — `GapFree` ∧ `CountsAgree` —, no macro keyword in a binding position, no
+  `unquote`/`quasiquote` in the cdr chain of a template pair), an expansion the driver produces is the
+  specification's. The full statement `T17_3a` is **false**: `driver_sound_fails_at_witness`
+  (`(lambda (and x) x)` becomes `(lambda x x)`; finding `C17-driver-keyword-in-binding-position`).
+* T17.3b `driver_outermost_first`: on a macro use the driver applies the transformer to the use as
+  written and then transforms the expansion — whatever the operands are (seeded change C17b-2 expanded
+  the operands first); `driver_operands_as_written` shows the difference at `(q1 (and 1 2))`.
+* T17.3c `driver_exhaustion_has_chain` (fuel runs out only along `f + 1` nested expansions),
+  `driver_fuel_mono`, `driver_terminates_iff` (on a use: out of fuel iff out of fuel on the expansion
+  with one unit less), `driver_macro_free_terminates`, `driver_loops_on_self_expanding_macro`.
+* T17.3d `driver_quote_unchanged`, `driver_quasiquote_mask`.
+-/
+
+open Marwood.Spec.ExpandAll
+
+/-- every transformer of the table was accepted by `Transform::try_new` -/
+def AcceptedTable (M : MacroTable) : Prop := ∀ p ∈ M, ∃ f0 d, Transform.tryNew f0 d = .ok p.2
+
+theorem mem_of_lookup {M : MacroTable} {s : Text} {t : Transform} (h : M.lookup s = some t) :
+    ∃ p ∈ M, p.2 = t := by
+  induction M with
+  | nil => cases h
+  | cons q M ih =>
+    rw [List.lookup_cons] at h
+    cases hq : s == q.1 with
+    | true => rw [hq] at h; cases h; exact ⟨q, List.mem_cons_self, rfl⟩
+    | false =>
+      rw [hq] at h
+      obtain ⟨p, hp, rfl⟩ := ih h
+      exact ⟨p, List.mem_cons_of_mem _ hp, rfl⟩
+
+theorem installMacro_accepted {M : MacroTable} (h : AcceptedTable M) (form : Datum) :
+    AcceptedTable (installMacro M form) := by
+  unfold installMacro
+  split
+  · split
+    · split
+      · rename_i t heq
+        split
+        · intro p hp
+          rcases List.mem_cons.mp hp with rfl | hp
+          · exact ⟨_, _, heq⟩
+          · exact h p hp
+        · exact h
+      · exact h
+    · exact h
+  · exact h
+
+/-- **a table built by `define-syntax` forms holds accepted transformers only** -/
+theorem tableOf_accepted (defs : List Datum) : AcceptedTable (tableOf defs) := by
+  unfold tableOf
+  suffices ∀ M, AcceptedTable M → AcceptedTable (defs.foldl installMacro M) from
+    this [] (fun p hp => by cases hp)
+  induction defs with
+  | nil => intro M h; exact h
+  | cons d ds ih => intro M h; exact ih _ (installMacro_accepted h d)
+
+theorem le_sum_map_of_mem {α} (f : α → Nat) {l : List α} {a : α} (h : a ∈ l) : f a ≤ (l.map f).sum := by
+  induction l with
+  | nil => cases h
+  | cons b l ih =>
+    rw [List.map_cons, List.sum_cons]
+    rcases List.mem_cons.mp h with rfl | h
+    · omega
+    · have := ih h; omega
+
+/-- the fuel the driver model gives a transformer is enough: `Transform.transform` never answers
+    "out of fuel" there (T17.2 through `transform_terminates`) -/
+theorem useFuelT_sufficient (f0 : Nat) (d : Datum) (t : Transform)
+    (hdef : Transform.tryNew f0 d = .ok t) (u : Datum) : t.transform (useFuelT t u) u ≠ .fuel := by
+  refine transform_terminates f0 d t hdef u _ (by unfold useFuelT; omega) ?_
+  intro r hr
+  have := le_sum_map_of_mem (fun r : Pattern × Datum => 2 * (dsize u + 1) * dsize r.2) hr
+  unfold useFuelT expandFuel
+  omega
+
+theorem accepted_terminate {M : MacroTable} (h : AcceptedTable M) : TransformersTerminate M := by
+  intro s t hl u
+  obtain ⟨p, hp, rfl⟩ := mem_of_lookup hl
+  obtain ⟨f0, d, hd⟩ := h p hp
+  exact useFuelT_sufficient f0 d _ hd u
+
+/-- one step of the driver on a guarded use is R7RS's (T17.1: `soundness_gapfree_exact_partial`) -/
+theorem accepted_stepSound {M : MacroTable} (h : AcceptedTable M) : StepSound M := by
+  intro s t u e hl hok ht
+  obtain ⟨p, hp, rfl⟩ := mem_of_lookup hl
+  obtain ⟨f0, d, hd⟩ := h p hp
+  simp only [useOK, Bool.and_eq_true] at hok
+  refine soundness_gapfree_exact_partial f0 d _ _ u e hd hok.1 ?_ ht
+  unfold CountsAgree
+  exact hok.2
+
+/-! ## T17.3a -/
+
+/-- T17.3a at full strength: for every table of accepted transformers, an expansion the driver
+    produces is the one R7RS prescribes (errors always allowed; `mismatch` = the excluded uses) -/
+def T17_3a : Prop :=
+  ∀ (M : MacroTable) (f : Nat) (d e : Datum), AcceptedTable M → expandForm M f d = .ok e →
+    specExpandAll f (specTable M) d = .ok e ∨ specExpandAll f (specTable M) d = .mismatch
+
+/-- **T17.3a for every guarded form**: the driver's expansion is the specification's. Hypotheses:
+    the transformers were accepted by `try_new`; the decidable guard `expandGuard` (known findings
+    `C17-empty-ellipsis-before-tail`, `C17-driver-keyword-in-binding-position`, `C01-dotted-unquote`,
+    and the uses the property excludes). -/
+theorem driver_sound_partial (M : MacroTable) (hacc : AcceptedTable M) (f : Nat) (d e : Datum)
+    (hguard : expandGuard f (specTable M) d = true) (h : expandForm M f d = .ok e) :
+    specExpandAll f (specTable M) d = .ok e :=
+  expandForm_sound M (accepted_stepSound hacc) f d e hguard h
+
+/-- `lambda`, `and`, `x`, `q1`, `lp`, `quote`, `if` -/
+def lambdaS : Datum := .sym ['l','a','m','b','d','a']
+def andS : Datum := .sym ['a','n','d']
+def xS : Datum := .sym ['x']
+def q1S : Datum := .sym ['q','1']
+def lpS : Datum := .sym ['l','p']
+def quoteS : Datum := .sym ['q','u','o','t','e']
+def ifS : Datum := .sym ['i','f']
+def dsS : Datum := .sym ['d','e','f','i','n','e','-','s','y','n','t','a','x']
+
+/-- the table after the prelude's `(define-syntax and …)` -/
+def andTable : MacroTable := tableOf [Gen.Prelude.macro5]
+
+/-- `(lambda (and x) x)` -/
+def kwFormalsForm : Datum := Datum.ofList [lambdaS, Datum.ofList [andS, xS], xS]
+
+/-- the driver treats the formals `(and x)` as a use of `and`: `(lambda x x)` -/
+theorem kwFormals_model :
+    expandForm andTable 1 kwFormalsForm = .ok (Datum.ofList [lambdaS, xS, xS]) := by decide +kernel
+
+/-- R7RS: formals are not expressions; the form is its own expansion -/
+theorem kwFormals_spec :
+    specExpandAll 1 (specTable andTable) kwFormalsForm = .ok kwFormalsForm := by decide +kernel
+
+/-- the guard excludes the form -/
+theorem kwFormals_guard : expandGuard 1 (specTable andTable) kwFormalsForm = false := by decide +kernel
+
+/-- **The full statement T17.3a is false for the pinned code** (finding
+    `C17-driver-keyword-in-binding-position`): with the prelude's `and`, `(lambda (and x) x)` is
+    silently turned into the variadic `(lambda x x)`. -/
+theorem driver_sound_fails_at_witness : ¬ T17_3a := by
+  intro H
+  have h := H andTable 1 kwFormalsForm _ (tableOf_accepted _) kwFormals_model
+  rw [kwFormals_spec] at h
+  rcases h with h | h
+  · exact absurd (XRes.ok.inj h) (by decide)
+  · cases h
+
+/-- `driver_sound_partial` applies non-trivially: `(f (and 1 2) (quote (and)) (lambda (x) (and x)))`
+    passes the guard and is expanded to `(f (if 1 2 #f) (quote (and)) (lambda (x) x))` -/
+example : AcceptedTable andTable ∧
+    expandGuard 2 (specTable andTable)
+      (Datum.ofList [.sym ['f'], Datum.ofList [andS, n1, n2], Datum.ofList [quoteS, Datum.ofList [andS]],
+        Datum.ofList [lambdaS, Datum.ofList [xS], Datum.ofList [andS, xS]]]) = true ∧
+    expandForm andTable 2
+      (Datum.ofList [.sym ['f'], Datum.ofList [andS, n1, n2], Datum.ofList [quoteS, Datum.ofList [andS]],
+        Datum.ofList [lambdaS, Datum.ofList [xS], Datum.ofList [andS, xS]]])
+      = .ok (Datum.ofList [.sym ['f'], Datum.ofList [ifS, n1, n2, .bool false],
+          Datum.ofList [quoteS, Datum.ofList [andS]], Datum.ofList [lambdaS, Datum.ofList [xS], xS]]) :=
+  ⟨tableOf_accepted _, by decide +kernel, by decide +kernel⟩
+
+/-! ## T17.3b -/
+
+/-- **the transformer sees the use as written**: on `(s . args)` with `s` bound to a macro (and not one
+    of the words the driver tests first) the driver's answer is the transformer's answer on the
+    UNEXPANDED form, handed to the driver again with one unit of fuel less — whatever `args` are,
+    macro uses included. -/
+theorem driver_outermost_first (M : MacroTable) (f : Nat) (s : Text) (args : Datum) (t : Transform)
+    (hk : headKind (.sym s) = .other) (hl : M.lookup s = some t) :
+    expandForm M (f + 1) (.pair (.sym s) args) =
+      (t.transform (useFuelT t (.pair (.sym s) args)) (.pair (.sym s) args)).bind (expandForm M f) := by
+  simp only [expandForm, walk, walkPair, hk, macroOf, hl, expandUse]
+
+/-- in the lead's words: the expansion of the use equals the expansion of (`transform` applied to the
+    unexpanded use) -/
+theorem driver_expansion_of_use (M : MacroTable) (f : Nat) (s : Text) (args e : Datum) (t : Transform)
+    (hk : headKind (.sym s) = .other) (hl : M.lookup s = some t)
+    (ht : t.transform (useFuelT t (.pair (.sym s) args)) (.pair (.sym s) args) = .ok e) :
+    expandForm M (f + 1) (.pair (.sym s) args) = expandForm M f e := by
+  rw [driver_outermost_first M f s args t hk hl, ht]; rfl
+
+/-- an error of the transformer is the driver's answer (`?`) -/
+theorem driver_error_propagates (M : MacroTable) (f : Nat) (s : Text) (args : Datum) (t : Transform) (x : TErr)
+    (hk : headKind (.sym s) = .other) (hl : M.lookup s = some t)
+    (ht : t.transform (useFuelT t (.pair (.sym s) args)) (.pair (.sym s) args) = .err x) :
+    expandForm M (f + 1) (.pair (.sym s) args) = .err x := by
+  rw [driver_outermost_first M f s args t hk hl, ht]; rfl
+
+/-- `(define-syntax q1 (syntax-rules () ((_ a) (quote a))))` -/
+def q1Def : Datum :=
+  Datum.ofList [dsS, q1S, Datum.ofList [srSym, .nil,
+    Datum.ofList [Datum.ofList [.sym ['_'], .sym ['a']], Datum.ofList [quoteS, .sym ['a']]]]]
+
+def q1Table : MacroTable := tableOf [Gen.Prelude.macro5, q1Def]
+
+/-- **operands that are macro uses are data to the outer transformer**: `(q1 (and 1 2))` expands to
+    `(quote (and 1 2))` although `(and 1 2)` alone expands to `(if 1 2 #f)` — a driver that expands
+    operands first (seeded change C17b-2) answers `(quote (if 1 2 #f))` -/
+theorem driver_operands_as_written :
+    expandForm q1Table 2 (Datum.ofList [q1S, Datum.ofList [andS, n1, n2]])
+      = .ok (Datum.ofList [quoteS, Datum.ofList [andS, n1, n2]]) ∧
+    expandForm q1Table 2 (Datum.ofList [andS, n1, n2])
+      = .ok (Datum.ofList [ifS, n1, n2, .bool false]) ∧
+    specExpandAll 2 (specTable q1Table) (Datum.ofList [q1S, Datum.ofList [andS, n1, n2]])
+      = .ok (Datum.ofList [quoteS, Datum.ofList [andS, n1, n2]]) := by
+  refine ⟨by decide +kernel, by decide +kernel, by decide +kernel⟩
+
+/-! ## T17.3c -/
+
+/-- **the driver runs out of fuel only along a chain of expansions**: if `expandForm M f d` answers
+    "out of fuel" there are `f + 1` nested expansions — a use occurring in `d` whose expansion contains
+    a use whose expansion … (`ExpChain`); the walk between two expansions is structural recursion
+    on the form and needs no fuel. -/
+theorem driver_exhaustion_has_chain (M : MacroTable) (hacc : AcceptedTable M) (f : Nat) (d : Datum)
+    (h : expandForm M f d = .fuel) : ExpChain M (f + 1) d :=
+  expandForm_fuel_chain M (accepted_terminate hacc) f d h
+
+/-- an answer other than "out of fuel" is the answer for every larger fuel -/
+theorem driver_fuel_mono (M : MacroTable) (f : Nat) (d : Datum) (h : expandForm M f d ≠ .fuel) :
+    ∀ k, expandForm M (f + k) d = expandForm M f d := by
+  intro k
+  induction k with
+  | zero => rfl
+  | succ k ih =>
+    rw [← Nat.add_assoc, expandForm_mono M (f + k) d (by rw [ih]; exact h), ih]
+
+/-- **on a macro use the driver terminates iff it terminates on the expansion** (one unit of fuel per
+    expansion, nothing else) -/
+theorem driver_terminates_iff (M : MacroTable) (hacc : AcceptedTable M) (f : Nat) (s : Text) (args : Datum)
+    (t : Transform) (hk : headKind (.sym s) = .other) (hl : M.lookup s = some t) :
+    expandForm M (f + 1) (.pair (.sym s) args) = .fuel ↔
+      ∃ e, t.transform (useFuelT t (.pair (.sym s) args)) (.pair (.sym s) args) = .ok e ∧
+        expandForm M f e = .fuel := by
+  rw [driver_outermost_first M f s args t hk hl, Res.bind_eq_fuel]
+  constructor
+  · rintro (h | h)
+    · exact absurd h (accepted_terminate hacc s t hl _)
+    · exact h
+  · exact fun h => .inr h
+
+/-- a form that mentions no macro keyword is returned as it is, with no fuel at all -/
+theorem driver_macro_free_terminates (M : MacroTable) (f : Nat) (d : Datum)
+    (h : mentions (specTable M) d = false) : expandForm M f d = .ok d := by
+  cases f <;> exact walk_noMention M _ d h
+
+/-- `(define-syntax lp (syntax-rules () ((_) (lp))))` -/
+def lpDef : Datum :=
+  Datum.ofList [dsS, lpS, Datum.ofList [srSym, .nil,
+    Datum.ofList [Datum.ofList [.sym ['_']], Datum.ofList [lpS]]]]
+
+def lpTable : MacroTable := tableOf [lpDef]
+
+def lpT : Transform :=
+  match lpTable with
+  | (_, t) :: _ => t
+  | [] => default
+
+theorem lp_facts : ∃ t, lpTable.lookup ['l','p'] = some t ∧
+    t.transform (useFuelT t (Datum.ofList [lpS])) (Datum.ofList [lpS]) = .ok (Datum.ofList [lpS]) :=
+  ⟨lpT, by decide +kernel, by decide +kernel⟩
+
+/-- a macro that expands to itself exhausts every fuel (the driver loops exactly when the chain of
+    expansions does) -/
+theorem driver_loops_on_self_expanding_macro : ∀ f, expandForm lpTable f (Datum.ofList [lpS]) = .fuel := by
+  obtain ⟨t, hl, ht⟩ := lp_facts
+  intro f
+  induction f with
+  | zero =>
+    show walk lpTable (fun _ => .fuel) (Datum.pair lpS .nil) = .fuel
+    simp only [lpS, walk, walkPair, macroOf, hl, expandUse]
+    have hk : headKind (Datum.sym ['l','p']) = .other := by decide
+    simp only [hk]
+    rw [show (Datum.sym ['l','p']).pair .nil = Datum.ofList [lpS] from rfl, ht]
+    rfl
+  | succ f ih =>
+    have := driver_expansion_of_use lpTable f ['l','p'] .nil _ t (by decide) hl ht
+    exact this.trans ih
+
+example : ExpChain lpTable 3 (Datum.ofList [lpS]) :=
+  driver_exhaustion_has_chain lpTable (tableOf_accepted _) 2 _ (driver_loops_on_self_expanding_macro 2)
+
+/-! ## T17.3d -/
+
+/-- quoted data and `define-syntax` forms are returned as they are, whatever they contain -/
+theorem driver_quote_unchanged (M : MacroTable) (f : Nat) (x : Datum) :
+    expandForm M f (.pair quoteS x) = .ok (.pair quoteS x) ∧
+    expandForm M f (.pair dsS x) = .ok (.pair dsS x) := by
+  cases f <;> exact ⟨rfl, rfl⟩
+
+/-- **a quasiquote template keeps everything but the expressions under a depth-0 `unquote`**: the
+    result is `(quasiquote tpl' . r)` and `tpl'`, with those expressions masked, is `tpl` masked -/
+theorem driver_quasiquote_mask (M : MacroTable) (f : Nat) (tpl r e : Datum)
+    (h : expandForm M f (.pair (.sym Transform.quasiquoteN) (.pair tpl r)) = .ok e) :
+    ∃ tpl', e = .pair (.sym Transform.quasiquoteN) (.pair tpl' r) ∧ maskQQ 0 tpl' = maskQQ 0 tpl := by
+  have key : ∀ re, walk M re (.pair (.sym Transform.quasiquoteN) (.pair tpl r)) = .ok e →
+      ∃ tpl', e = .pair (.sym Transform.quasiquoteN) (.pair tpl' r) ∧ maskQQ 0 tpl' = maskQQ 0 tpl := by
+    intro re h
+    rw [walk, walkQQHead, walkPair_quasi M re (s := Transform.quasiquoteN) (by decide) rfl] at h
+    obtain ⟨q, hq, h⟩ := Res.bind_eq_ok.mp h
+    obtain ⟨t', ht, hq⟩ := Res.bind_eq_ok.mp hq
+    cases hq; cases h
+    exact ⟨t', rfl, (walkQQ_mask M re tpl).1 0 t' ht⟩
+  cases f <;> exact key _ h
+
+/-- `(quasiquote (1 (unquote (and 1 2)) (and 3 4) (quasiquote (unquote (and)))))`: only the level-0
+    unquote is expanded -/
+example :
+    expandForm andTable 2 (Datum.ofList [.sym Transform.quasiquoteN, Datum.ofList [n1,
+        Datum.ofList [.sym Transform.unquoteN, Datum.ofList [andS, n1, n2]], Datum.ofList [andS, n3, n4],
+        Datum.ofList [.sym Transform.quasiquoteN, Datum.ofList [.sym Transform.unquoteN, Datum.ofList [andS]]]]])
+      = .ok (Datum.ofList [.sym Transform.quasiquoteN, Datum.ofList [n1,
+        Datum.ofList [.sym Transform.unquoteN, Datum.ofList [ifS, n1, n2, .bool false]], Datum.ofList [andS, n3, n4],
+        Datum.ofList [.sym Transform.quasiquoteN, Datum.ofList [.sym Transform.unquoteN, Datum.ofList [andS]]]]]) := by
+  decide +kernel
+
+/-! ## the macro table across top-level forms -/
+
+/-- a top-level `define-syntax` adds its macro for the LATER forms: `(q1 (and))` before the definition
+    is a combination (its operand is expanded), after it a macro use (its operand is data) -/
+example :
+    expandSession andTable 2 [Datum.ofList [q1S, Datum.ofList [andS]], q1Def, Datum.ofList [q1S, Datum.ofList [andS]]]
+      = [.ok (Datum.ofList [q1S, .bool true]), .ok q1Def, .ok (Datum.ofList [quoteS, Datum.ofList [andS]])] := by
+  decide +kernel
+
+/-! ## the prelude's macros: `cond` → `if` / `begin` → `lambda` -/
+
+/-- the table a fresh `Vm` starts with: every `define-syntax` of `prelude.scm`, in file order -/
+def preludeTable : MacroTable := tableOf (Gen.Prelude.macros.map (·.2))
+
+def condS : Datum := .sym ['c','o','n','d']
+def elseS : Datum := .sym ['e','l','s','e']
+
+/-- `(cond ((and 1 2) 3) (else 4))` → `(if (if 1 2 #f) ((lambda () 3)) ((lambda () 4)))`: macros
+    expanding to other macros, nested uses as operands — all hypotheses of `driver_sound_partial` hold -/
+example : AcceptedTable preludeTable ∧
+    expandGuard 6 (specTable preludeTable)
+      (Datum.ofList [condS, Datum.ofList [Datum.ofList [andS, n1, n2], n3], Datum.ofList [elseS, n4]]) = true ∧
+    expandForm preludeTable 6
+      (Datum.ofList [condS, Datum.ofList [Datum.ofList [andS, n1, n2], n3], Datum.ofList [elseS, n4]])
+      = .ok (Datum.ofList [ifS, Datum.ofList [ifS, n1, n2, .bool false],
+          Datum.ofList [Datum.ofList [lambdaS, .nil, n3]], Datum.ofList [Datum.ofList [lambdaS, .nil, n4]]]) :=
+  ⟨tableOf_accepted _, by decide +kernel, by decide +kernel⟩
 
 end Marwood.Proofs.C17
